@@ -98,8 +98,13 @@ def _run(cid, cfg_idx, seed, out, prefixes=None):
         except Exception as e:
             if is_engine_exc(e):
                 raise
-            # an exception escaping from the contract body itself (spec code): contract error
-            raise sc.EngineError('contract body raised %s: %s\n%s' % (type(e).__name__, e, traceback.format_exc()[-1500:]))
+            # an exception escaping from the contract body itself (spec code): contract error - unless a clause has
+            # already failed on this path (e.g. a wrong length, after which indexing the result fails): then the path
+            # simply ends there, the failed clause is what is reported
+            if any(o.status.startswith('refuted') for o in ck.obligs):
+                status = 'aborted'
+            else:
+                raise sc.EngineError('contract body raised %s: %s\n%s' % (type(e).__name__, e, traceback.format_exc()[-1500:]))
         pending.extend(ctx.pending)
         if status == 'infeasible':
             continue
